@@ -382,7 +382,8 @@ BASE_LINES = [
     ("", "NAM", "PROG", ""), ("", "SETDP", "0", ""), ("", "JSR", "[K]", ""), ("", "LEAX", "MSG,PCR", ""),
     ("", "PSHS", "A,B,X", ""), ("", "TFR", "X,Y", ""), ("", "LDD", "K+1", ""), ("", "CMPA", "#'A", ""),
     ("", "LDB", "5,Y", ""), ("", "NOP", "", "nothing"), ("", "LBRA", "START", ""), ("", "STB", "<$20", ""),
-    ("", "LDA", "B,U", ""), ("", "INCLUDE", "other.asm", ""),
+    ("", "LDA", "B,U", ""), ("", "INCLUDE", "other.asm", ""), ("", "LDA", "START,X", "label offset"), ("", "LEAX", "LOOP,Y", ""),
+    ("", "LDA", "[MSG,U]", ""), ("", "LDB", "START,PC", ""), ("L2", "LDA", "L2,S", ""), ("", "LDA", "K,X", ""), ("", "LDD", "#START-LOOP", ""),
 ]
 PUNCT = [",", "#", "[", "]", "<", ">", "'", '"', "+", "-", "*", "/", "$", "%", "@", ";", ".", ":", "(", "=", "!", "?", "&", "^"]
 
